@@ -68,7 +68,7 @@ def rdC15Obs : Rd C15H264.Obs := do
     pure { panicked := false, after := a, fresh := f }
   | _ => Rd.fail
 
-def rdDepObs : Rd (C09.DepObs Bool) := do
+def rdH264DepObs : Rd (C09.DepObs Bool) := do
   let r ← Rd.resC Rd.bytes
   let md ← Rd.bool; let h ← Rd.bool; let t0 ← Rd.bool; let t1 ← Rd.bool
   let ap ← Rd.bool; let fs ← Rd.bool; let tw ← Rd.bool
@@ -90,7 +90,7 @@ def c08 : Handler :=
     (fun (_, cs) os => C08.histOk false cs os)
 
 def c09 : Handler :=
-  mkHandler (do let a ← Rd.bool; let ps ← Rd.list Rd.obytes; pure (a, ps)) (Rd.list rdDepObs)
+  mkHandler (do let a ← Rd.bool; let ps ← Rd.list Rd.obytes; pure (a, ps)) (Rd.list rdH264DepObs)
     (fun (a, ps) => c09Calls a [] ps)
     (fun _ os => C09.histOk false os)
 
